@@ -12,6 +12,61 @@ NOTE = ("Trusted base: Lean 4.33 kernel (axioms propext, Classical.choice, Quot.
         "alv.py. ")
 
 CLAIMS = {
+ "C06": dict(
+   text="Theorems AL.Properties.C06.program_code / concat_call / split_codes / split_calls with AL.Lemmas.assembleLine_local and "
+        "asm_layout: for EVERY text the codes assemble_all emits are the codes of its lines (split at each CR/LF) assembled ALONE by the "
+        "state-less per-line function; a successful plain call leaves, from the old offset, exactly their concatenation, advances the "
+        "offset by its length and touches nothing before it (the right-hand side mentions neither prior buffer contents nor earlier "
+        "calls); feeding t1 then t2 equals feeding t1++eol++t2. Tie + oracle: all 11449 ordered pairs of 107 representative lines and "
+        "random programs, one call vs two calls at several offsets/fills, compared with the implementation's own per-line results.",
+   note="Unbounded induction over lines; line-locality of the C filter/str_to_instr is proved on the model (assembleLine_local) and tied "
+        "by differential execution. Positions below 2^31-60.",
+   technique="Lean 4 proof by induction over lines/codes (layout theorem) + differential correspondence and concatenation oracle",
+   design="8/C06"),
+ "C08": dict(
+   text="Theorems AL.Properties.C08.internal_has_room / plain_success_iff / growth_keeps_code / same_as_caller_buffer: on an internal "
+        "instance the room check never fails, a plain run succeeds iff no code exceeds the reserve (same condition as a caller buffer with "
+        "room), every call keeps all bytes before its start offset through any number of growths, and a successful call leaves the same "
+        "code at the same place and the same offset as on a caller buffer (the layout of C06/C13). Tie + oracle: internal instance vs "
+        "40000-byte caller buffer at offsets -21..+21 around each growth point in plain/fitting(7,9,13,16)/counting mode and genuinely "
+        "long programs; every growth is forced to MOVE the mapping; code behind the growth point is executed.",
+   note="mremap is modelled as 'same prefix, 6000 more zero bytes' (assumed OS behaviour); executability after growth is observed by "
+        "running code, not proved.",
+   technique="Lean 4 simulation/layout proof + differential correspondence with forced mremap relocation",
+   design="8/C08"),
+ "C13": dict(
+   text="Theorems AL.Properties.C13.fitting_call / fitting_is_plain_with_pads / pad_only_when_crossing / instruction_in_one_chunk / "
+        "pads_are_nops / plain_layout / small_chunk_disables and AL.Lemmas.second_round_fits: for EVERY chunk size c>=2, text, offset and "
+        "per-line function a successful fitting call stores the plain code with pads inserted in front of instructions; each pad is a "
+        "concatenation of NOP-table entries of total length c - p mod c and is non-empty only if the instruction (shorter than c) would "
+        "cross the next boundary; every instruction shorter than c lies inside one chunk; deleting the pads gives the plain code; the "
+        "do-while loop needs at most two rounds; c<2 disables fitting. Tie + oracle: all c in 2..24 x every position mod c x every "
+        "instruction length 1..14 the library emits, random programs, fitting toggled between calls.",
+   note="That each NOP-table entry decodes to exactly one x86 NOP is checked against the decoder specification when AL.Spec.X86 is "
+        "present; until then the entries are compared with the Intel-recommended multi-byte NOP sequences in the check.",
+   technique="Lean 4 proof (modular arithmetic + layout induction) + differential correspondence and layout oracle",
+   design="8/C13"),
+ "C14": dict(
+   text="Theorems AL.Properties.C14.count_call / count_call_small / crossCount_append with AL.Lemmas.cross_iff: on an instance without "
+        "fitting, for EVERY text, start offset and chunk size 2<=c<2^31 the counting call leaves the instance exactly as asm_assemble_str "
+        "does (bytes, offset, options, mode and chunk setting restored), returns the same value and stores the number of this call's "
+        "instructions with floor(p/c) != floor((p+len-1)/c); for c<2 it is a plain assembly reporting 0. Tie + oracle: chunk sizes "
+        "-1,0,1,2..33,2^31-1 x exact-fit offsets x programs, each counted twice in a row and followed by a plain call.",
+   note="Unbounded; positions below 2^32.",
+   technique="Lean 4 proof (floor-division lemma, induction over codes) + differential correspondence and count oracle",
+   design="8/C14"),
+ "C15": dict(
+   text="Theorems AL.Properties.C15.same_result / same_bytes / same_count / after_history / counting_restores / failed_call_harmless / "
+        "index_tables_deterministic: two instances with the same kind and size of buffer, options, mode and chunk size but ARBITRARY "
+        "buffer contents and ARBITRARY histories (any C07.Op sequences: successful and failing assemblies, counting calls, overwritten "
+        "settings) give, after asm_set_offset(k), the same return value, offset, count and code bytes; a failed call leaves offset and "
+        "configuration unchanged; a counting call restores mode and chunk size; the global index tables are a function of the constant "
+        "tables. Tie + oracle: every history of up to 2 (thorough 3) calls from a 24-call alphabet and random longer ones vs a fresh "
+        "instance over a different fill.",
+   note="Instances on caller buffers of equal length (internal instances of different current size are covered by C08). The model has "
+        "no shared mutable state besides the index tables; that the C code has none either is the T5 inventory (nm).",
+   technique="Lean 4 proof (congruence of the run under configuration-equivalence, induction over histories) + differential correspondence",
+   design="8/C15"),
  "C07": dict(
    text="Theorems AL.Properties.C07.contained / contained_oob / step_J / no_room_fails: for a caller buffer of ANY length n < 2 GiB with "
         "any prior contents and EVERY finite history of setter, chunk, offset (0<=k<=n), assemble and counting calls (any text, "
